@@ -129,6 +129,21 @@ type tcombo struct{ tsrc, ctxAt, ctxDl string }
 // timingLattice lists the admissible points for a script.
 func timingLattice(s script) []tcombo {
 	var out []tcombo
+	if s.Texp { // the request timeout itself is already over: negative or vanishing SetTimeout, no or a later caller deadline
+		for _, ts := range []string{"negative", "tiny"} {
+			for _, at := range []string{"none", "op", "rt"} {
+				for _, dl := range []string{"none", "longer", "shorter"} {
+					switch {
+					case at == "none" && (dl != "none" || s.Cancel != "none" || s.AuthWait):
+					case s.AuthWait != (dl == "shorter"): // only the waiting auth writer needs the context's own (near) deadline
+					default:
+						out = append(out, tcombo{ts, at, dl})
+					}
+				}
+			}
+		}
+		return out
+	}
 	ctxs := []string{"none", "op", "rt"}
 	if s.Cancel != "none" || s.AuthWait {
 		ctxs = []string{"op", "rt"} // the harness cancels / waits on the caller's context
@@ -162,6 +177,15 @@ func renderTiming(s script, c tcombo, nearMs int) timing {
 		eff = nearMs
 	}
 	switch c.tsrc {
+	case "negative", "tiny":
+		tm.timeoutMs = 0 // as the specification sees it: the request timeout is over at once
+		switch c.ctxDl {
+		case "longer":
+			tm.ctxMs = farMs
+		case "shorter":
+			tm.ctxMs = nearMs
+		}
+		return tm
 	case "explicit":
 		tm.timeoutMs = eff
 		if c.ctxDl == "shorter" {
@@ -227,7 +251,7 @@ func baseScript(payload string, fields, nfiles int, reuse bool, auth, reader, ca
 	return M{"payload": payload, "fields": fields, "nfiles": nfiles, "reuse": reuse, "auth": auth, "reader": reader,
 		"cancel": cancel, "werr": "none", "autherr": false, "authwait": false, "urlerr": false,
 		"src":    []M{{"kind": "none", "off": 0}, {"kind": "none", "off": 0}},
-		"tfault": "none", "srv": M{"kind": "none", "at": "none", "k": 0}}
+		"tfault": "none", "srv": M{"kind": "none", "at": "none", "k": 0}, "texp": false}
 }
 
 // randomScript draws a script of the full space with up to two faults (same validity rules as FaultOptions).
@@ -251,7 +275,9 @@ func randomScript(rng *rand.Rand) M {
 		nsrc = 1
 	}
 	for k := rng.Intn(3); k > 0; k-- {
-		switch rng.Intn(7) {
+		switch rng.Intn(8) {
+		case 7:
+			scr["texp"] = true
 		case 0:
 			if p.n > 0 && rng.Intn(2) == 0 {
 				scr["werr"] = "after"
@@ -405,6 +431,26 @@ func generate(c *drv.Ctx) {
 						chunk: 4096, unit: unit, rchunk: 4096, srvOff: srvOffBytes(pl.at, pl.k, unit, ci, body)}
 					descs = append(descs, descriptor(scr, r))
 					n++
+				}
+			}
+		}
+		// a request timeout that is already over (negative / 1 ns) against a normal, a stalling and a truncating server
+		for _, srv := range []M{{"kind": "none", "at": "none", "k": 0}, {"kind": "stall", "at": "status", "k": 0}, {"kind": "stall", "at": "body", "k": 1}} {
+			for _, mode := range []string{"rt", "wire"} {
+				for pi, pay := range []struct {
+					p    string
+					f, n int
+				}{{"buffer", 0, 0}, {"mp", 1, 1}} {
+					scr := baseScript(pay.p, pay.f, pay.n, pi == 0, "none", "all", "none")
+					scr["srv"] = srv
+					scr["texp"] = true
+					s := scriptOf(drv.Norm(scr))
+					for ci, cb := range timingLattice(s) {
+						r := render{mode: mode, tm: renderTiming(s, cb, 250), fileLen: []int{700, 700}, srcOff: []int{0, 0},
+							chunk: 4096, unit: unit, rchunk: 4096, srvOff: srvOffBytes(drv.Str(srv["at"]), drv.Int(srv["k"]), unit, ci, body)}
+						descs = append(descs, descriptor(scr, r))
+						n++
+					}
 				}
 			}
 		}
